@@ -43,7 +43,7 @@ func (n *Net) BuiltAt() time.Time { return n.now }
 func CombFamily(level int) []*Topo {
 	var out []*Topo
 	for _, t := range Family(level) {
-		if strings.HasSuffix(t.Name, "/split=0") {
+		if strings.HasSuffix(t.Name, "/split=0") || strings.HasSuffix(t.Name, "/split=0/local-ifids") {
 			out = append(out, t)
 		}
 	}
@@ -158,18 +158,26 @@ func CombFamily(level int) []*Topo {
 				}
 			}
 		}
-		for _, mask := range masks {
-			b := &builder{}
-			s.build(b)
-			for k, pc := range cands {
-				if mask>>k&1 == 1 {
-					b.link(pc[0], pc[1], PeerLink)
+		for mi, mask := range masks {
+			for _, local := range []bool{false, true} {
+				if local && mi > 0 && level == 0 {
+					continue // quick: AS-local interface numbering with the first peering mask only
 				}
+				b := &builder{localIDs: local}
+				s.build(b)
+				for k, pc := range cands {
+					if mask>>k&1 == 1 {
+						b.link(pc[0], pc[1], PeerLink)
+					}
+				}
+				t := b.t
+				t.Name = fmt.Sprintf("%s/peer=%b/split=0", s.name, mask)
+				if local {
+					t.Name += "/local-ifids"
+				}
+				t.split(0)
+				out = append(out, &t)
 			}
-			t := b.t
-			t.Name = fmt.Sprintf("%s/peer=%b/split=0", s.name, mask)
-			t.split(0)
-			out = append(out, &t)
 		}
 	}
 	return out
